@@ -147,7 +147,7 @@ fn sweep<T: Fam>(ctx: &Ctx, ln: u32, level: usize, known: &Known) {
     });
 }
 
-const PAYLOAD_ALPHA: [&str; 14] = ["<", ">", "&", "'", "\"", " ", "\t", "\n", "\r", "]", ";", "#", "a", "é"];
+const PAYLOAD_ALPHA: [&str; 15] = ["<", ">", "&", "'", "\"", " ", "\t", "\n", "\r", "\x0C", "]", ";", "#", "a", "é"];
 
 /// Every string up to `max` over the payload alphabet in every payload position of `T`.
 fn sweep_payloads<T: Fam>(ctx: &Ctx, ln: u32, max: u32, known: &Known) {
@@ -187,7 +187,7 @@ fn sweep_payloads<T: Fam>(ctx: &Ctx, ln: u32, max: u32, known: &Known) {
 
 pub fn run(ctx: &Ctx) {
     ctx.set_rule(
-        "for each of the 21 types of the family (attributes; optional attributes; child elements of string/number/bool/char; $text \
+        "for each of the 22 types of the family (attributes; optional attributes; child elements of string/number/bool/char; $text \
          with and without default; $value string; optional elements and structs; element lists of strings, numbers and structs; $text \
          and attribute simple lists; unit enums in attribute, element and $text position; unit/newtype/struct/$text variants in a \
          $value field; mixed $value lists without adjacent text items; nested structs; maps with name-like keys; newtype and tuple \
@@ -195,7 +195,7 @@ pub fn run(ctx: &Ctx) {
          (hostile string pool: markup characters, entity look-alikes, ]]>, quotes, blanks inside, non-ASCII, empty; lists of length \
          0..2/3; options; numeric extremes) x 3 quote levels x indent off/on x expand-empty off/on x root name from the type / \
          with_root; plus, per payload position of each type (attribute, element text, $text, $value, list item in attribute / text, \
-         map value, newtype / struct / $text variant payload, char), every string up to length 3/4 over {< > & ' \" space tab LF CR ] ; # a é} \
+         map value, newtype / struct / $text variant payload, char), every string up to length 3/4 over {< > & ' \" space tab LF CR FF ] ; # a é} \
          inside that position's documented domain: to_string must succeed and from_str and from_reader of the output must equal the value. non-trivial = every \
          round trip (all values carry markup-relevant payloads or structure); distinct by construction. states = distinct document \
          skeletons produced",
